@@ -12,6 +12,9 @@ t0=$(date +%s)
 JSIM_OUT="$out" /verif/run "$prop" "$tier" > "$out/log.txt" 2>&1
 rc=$?
 git -C /repo checkout -- .
+# keep the first minimised replay next to the seeded change (what a report of this violation looks like)
+first=$(grep -m1 "^VIOLATION property=$prop" "$out/log.txt" | sed 's/.*replay=//')
+[ -n "$first" ] && [ -f "$first" ] && cp "$first" "/verif/seeded/$id/replay-$prop.json"
 echo "seed=$id prop=$prop tier=$tier exit=$rc wall=$(( $(date +%s) - t0 ))s"
 grep "^jsim: [a-z-]* on\|^VIOLATION\|INCONCL\|KNOWN\|held" "$out/log.txt" | cut -c1-300 | head -12
 exit $rc
